@@ -47,6 +47,11 @@ class RemoveFutureImports(SimpleCodemod):
                     for name in original_node.names
                     if name.name.value not in DEPRECATED_NAMES
                 ]
+                if updated_names:
+                    # the last name kept may have been followed by a removed one
+                    updated_names[-1] = updated_names[-1].with_changes(
+                        comma=cst.MaybeSentinel.DEFAULT
+                    )
                 self.add_change(original_node, self.change_description)
                 return (
                     updated_node.with_changes(names=updated_names)
